@@ -1,3 +1,5 @@
+//go:build test && verif
+
 package suites
 
 // C10 (suite "syncwire") and helpers shared by the suites of C10, C11, C17
